@@ -18,7 +18,7 @@ use lang::Call;
 use ops::Session;
 use std::collections::VecDeque;
 use std::io::{BufWriter, Write};
-use std::sync::atomic::{AtomicU64, AtomicUsize, Ordering};
+use std::sync::atomic::{AtomicUsize, Ordering};
 use std::sync::{Arc, Mutex};
 
 struct Script {
@@ -67,7 +67,7 @@ fn parse_cases(text: &str) -> Result<Vec<Script>, String> {
 #[global_allocator]
 static GLOBAL: heapwatch::Watch = heapwatch::Watch;
 
-static TICKET: AtomicU64 = AtomicU64::new(0);
+static TICKET: AtomicUsize = AtomicUsize::new(0);
 
 /// One line of the schedule trace: which operation ran when, on which thread
 fn stamp(trace: &Mutex<Vec<String>>, id: &str, thread: usize) {
